@@ -120,6 +120,9 @@ def ensure_build(variant="std"):
             san = "address,bounds,null,unreachable,vla-bound"
             cflags = "-O1 -g -fsanitize=%s -fno-sanitize-recover=bounds,null,unreachable,vla-bound -fno-omit-frame-pointer -D%s" % (san, GUARD)
             ldflags = "-fsanitize=%s" % san
+        if variant == "tsan":
+            cflags = "-O1 -g -fsanitize=thread -fno-omit-frame-pointer -D%s" % GUARD
+            ldflags = "-fsanitize=thread"
         if not os.path.exists(os.path.join(src, "config.status")):
             rc, out = sh("./configure --disable-nls --disable-fuse2fs CFLAGS='%s' LDFLAGS='%s' >configure.out 2>&1" % (cflags, ldflags),
                          cwd=src, timeout=600)
@@ -216,7 +219,7 @@ def build_harness(name, src, variant="std", extra_src=(), libs=None):
     dep_m = max([os.path.getmtime(c) for c in csrc] + [os.path.getmtime(keyf)])
     if os.path.exists(exe) and os.path.getmtime(exe) >= dep_m:
         return exe
-    san = "-fsanitize=address,undefined -fno-sanitize-recover=undefined" if variant == "asan" else ""
+    san = {"asan": "-fsanitize=address,bounds,null", "tsan": "-fsanitize=thread"}.get(variant, "")
     if libs is None:
         libs = ["lib/libsupport.a", "lib/libext2fs.a", "lib/libe2p.a", "lib/libcom_err.a", "lib/libuuid.a", "lib/libblkid.a"]
     libs = [os.path.join(src, l) for l in libs if os.path.exists(os.path.join(src, l))]
